@@ -153,7 +153,8 @@ static void report(SP& s, const char* tag, const std::string& id)
    auto st = s.status();
    printf("%s %s status=%s iters=%d", tag, id.c_str(), statusName(st), s.numIterations());
    // which presolve reductions were applied (private statistics of the internal simplifier) and the representation used
-   printf(" rep=%s ps=", s._solver.rep() == SPxSolverBase<double>::COLUMN ? "C" : "R");
+   printf(" rep=%s alg=%s ps=", s._solver.rep() == SPxSolverBase<double>::COLUMN ? "C" : "R",
+          s._solver.type() == SPxSolverBase<double>::ENTER ? "E" : "L");
 
    if(s._simplifier != nullptr)
       for(int k = 0; k < s._simplifierMainSM.m_stat.size(); k++)
